@@ -1094,7 +1094,10 @@ func checkFlagsSurviveRefill(c *Ctx, p *core.Prog) {
 			continue
 		}
 		what := "hyphenation flag "
-		if !isBool(phi.Type()) {
+		if _, isSl := phi.Type().Underlying().(*types.Slice); isSl {
+			// the word and line buffers: what was collected of a word or a line when the window ran out
+			what = "buffer "
+		} else if !isBool(phi.Type()) {
 			// integer state (line number, held-back line breaks) - but not the scan position, which restarts with
 			// every window
 			bt, isB := phi.Type().Underlying().(*types.Basic)
@@ -1117,15 +1120,14 @@ func checkFlagsSurviveRefill(c *Ctx, p *core.Prog) {
 				carried = true
 				// and the read loop's phi must take the rune loop's final value on its back edge
 				for j, oe := range ph.Edges {
-					if outer.Dominates(outer.Preds[j]) {
-						if _, isConst := oe.(*ssa.Const); isConst {
-							carried = false
-						}
+					if outer.Dominates(outer.Preds[j]) && oe != ssa.Value(phi) {
+						// something else than the value the rune loop ended with goes round: the refill step changed it
+						carried = false
 					}
 				}
 			}
 			c.R.Check(carried, "R06.3", "tokenizeStream: "+what+phi.Comment+" keeps its value across buffer refills", p.Pos(phi.Pos()),
-				"enters the rune loop as a loop-carried value of the read loop", "the state is re-initialised for every 1020-byte window: a hyphen-split word that straddles a refill boundary is not joined and its line is counted wrongly")
+				"enters the rune loop as a loop-carried value of the read loop, which hands the rune loop's final value round unchanged", "the state is re-initialised or changed between two 1020-byte windows: what the tokenizer does then depends on where the window boundaries fall in the text (a hyphen-split word that straddles a boundary is not joined, an over-long word is cut at a boundary, a line is counted wrongly)")
 		}
 	}
 	c.R.RequireMin("R06.3", "state variables of the rune loop", n, 2)
